@@ -622,13 +622,16 @@ def canon(case):
     return json.dumps(case, sort_keys=True, default=str)
 
 
-def one_case(ctx, case, idx):
-    """returns (term or None, info)"""
+def evaluate(case):
+    """one call on the real objects of the interpreter this runs in (the checking process itself, or a child
+    started with other interpreter options: see optimised_probe).  Plain data only:
+    dict(kind 'val'/'err', term (Coq term of the case or None when a non-finite value cannot be encoded),
+    raised, mutated, restype)"""
     x_d, op, other_d = case["x"], case["op"], case["other"]
     t = x_d["t"]
     x = build(x_d)
     other = build(other_d) if other_d is not None else None
-    info = dict(idx=idx, t=t, op=op, case=case, raised=None, mutated=[])
+    info = dict(raised=None, mutated=[])
     try:
         before = (enc_val(x), enc_val(other) if other is not None else None)
     except NonFinite:
@@ -645,7 +648,6 @@ def one_case(ctx, case, idx):
         info["raised"] = dict(type=type(e).__name__, msg=str(e)[:200], site=failing_site(e),
                               sig=raise_signature(t, op, e), rejecting=False,
                               tb=traceback.format_exc()[-1200:])
-    nb, P, _, _ = dims(x_d)
     exact = not (t in ("nc", "cf") and op["op"] in ("sample", "bins_sample", "patches_sample", "mul_sample"))
     # containers are values: no operator, indexer or sampler may change an operand (the in-place forms
     # x += o may update x itself, never o; a running total started from 0 must not change x either)
@@ -664,8 +666,21 @@ def one_case(ctx, case, idx):
     try:
         term = "c17_case %s %s %s %s" % (fq.b(exact), enc_val(x_term), enc_op(op, other_term), enc_outcome(kind, res))
     except NonFinite:
-        ctx.bump("nonfinite_skipped")
         term = None
+    info.update(kind=kind, term=term, restype=type(res).__name__)
+    return info
+
+
+def one_case(ctx, case, idx):
+    """returns (term or None, info)"""
+    x_d, op, other_d = case["x"], case["op"], case["other"]
+    t = x_d["t"]
+    info = evaluate(case)
+    info.update(idx=idx, t=t, op=op, case=case)
+    term, kind = info["term"], info["kind"]
+    if term is None:
+        ctx.bump("nonfinite_skipped")
+    nb, P, _, _ = dims(x_d)
     nontrivial = (nb >= 2 or P >= 2)
     ctx.count(key=canon(case), nontrivial=nontrivial, kind="%s/%s" % (t, op["op"]))
     if "sel" in op:
@@ -675,24 +690,33 @@ def one_case(ctx, case, idx):
     ctx.bump("impl:" + ("returned" if kind == "val" else "raised:" + info["raised"]["type"]))
     if idx % 97 == 0:
         ctx.sample(dict(x=x_d, op=op, other=other_d,
-                        impl=("raised " + info["raised"]["type"]) if kind == "err" else type(res).__name__), limit=3)
+                        impl=("raised " + info["raised"]["type"]) if kind == "err" else info["restype"]), limit=3)
     return term, info
 
 
-def judge(ctx, info, c):
-    """interpret the status code of one case"""
+def judge(ctx, info, c, mode=None):
+    """interpret the status code of one case.  mode: None = the outcome observed in the checking process itself;
+    '-O' / 'PYTHONOPTIMIZE=1' = the outcome of the same call in an interpreter started that way (judged only
+    when it is another outcome than the one of the checking process)"""
     idx, t, op = info["idx"], info["t"], info["op"]
     replay = dict(case=info["case"], code=c, raised=info["raised"])
+    sfx, pre = "", ""
+    if mode is not None:
+        idx = ("optimised", mode, idx)
+        replay.update(mode=mode, normal_interpreter=info.get("normal"))
+        sfx = ":optimised-interpreter"
+        pre = ("in an interpreter started with %s (assert statements are compiled away, __debug__ is False; the same "
+               "call in a normal interpreter %s): " % (mode, info.get("normal")))
     cls = CLS[t].lower()
     opn = op["op"].replace("_", "-")
     raised = info["raised"]
     for which in info.get("mutated", []):
-        ctx.fail("c17-%s-%s-mutates-%s-operand" % (cls, opn, which),
-                 "%s %s changed its %s operand (containers are values; a later use of that operand sees other counts)"
+        ctx.fail("c17-%s-%s-mutates-%s-operand%s" % (cls, opn, which, sfx),
+                 pre + "%s %s changed its %s operand (containers are values; a later use of that operand sees other counts)"
                  % (CLS[t], opn, which), replay, case=idx)
     if raised is not None and not raised["rejecting"]:
         # AttributeError & co.: a defect of the operator, whatever the model expects
-        ctx.fail(raised["sig"], "%s %s raised %s at %s: %s" % (CLS[t], opn, raised["type"], raised["site"], raised["msg"]),
+        ctx.fail(raised["sig"] + sfx, pre + "%s %s raised %s at %s: %s" % (CLS[t], opn, raised["type"], raised["site"], raised["msg"]),
                  replay, case=idx)
         if c:
             ctx.disagree("Cases_C17", idx, dict(code=c))
@@ -701,8 +725,8 @@ def judge(ctx, info, c):
         return
     if c & 4:
         if raised is None and (c & 3) == 3:
-            ctx.fail("c17-%s-%s-malformed-result" % (cls, opn), "%s %s returned a container with inconsistent shapes" % (CLS[t], opn),
-                     replay, case=idx)
+            ctx.fail("c17-%s-%s-malformed-result%s" % (cls, opn, sfx),
+                     pre + "%s %s returned a container with inconsistent shapes" % (CLS[t], opn), replay, case=idx)
         ctx.disagree("Cases_C17", idx, dict(code=c, note="well-formedness flag"))
         return
     if c & 8:
@@ -711,23 +735,24 @@ def judge(ctx, info, c):
             sig = "c17-corrfunc-add-extra-member-dropped"
         else:
             sig = "c17-%s-%s-not-rejected%s" % (cls, opn, (":" + op["other_kind"]) if "other_kind" in op else "")
-        ctx.fail(sig, "%s %s on operands that must be rejected (%s) returned a result"
+        ctx.fail(sig + sfx, pre + "%s %s on operands that must be rejected (%s) returned a result"
                  % (CLS[t], opn, op.get("other_kind") or op.get("sel") or op.get("ktype")), replay, case=idx)
         ctx.disagree("Cases_C17", idx, dict(code=c))
         return
     if raised is not None:
         # valid operands (the model and the law give a value) but the call raised
-        ctx.fail(raised["sig"], "%s %s on valid operands raised %s at %s: %s"
+        ctx.fail(raised["sig"] + sfx, pre + "%s %s on valid operands raised %s at %s: %s"
                  % (CLS[t], opn, raised["type"], raised["site"], raised["msg"]), replay, case=idx)
         ctx.disagree("Cases_C17", idx, dict(code=c))
         return
     if c & 2:
-        ctx.fail("c17-%s-%s-wrong-result" % (cls, opn),
-                 "%s %s: the result differs from what the documented law requires (code %d)" % (CLS[t], opn, c), replay, case=idx)
+        ctx.fail("c17-%s-%s-wrong-result%s" % (cls, opn, sfx),
+                 pre + "%s %s: the result differs from what the documented law requires (code %d)" % (CLS[t], opn, c), replay, case=idx)
     ctx.disagree("Cases_C17", idx, dict(code=c))
 
 
 def run_cases(ctx, cases):
+    """-> list of (info, code) of the cases that could be encoded, in order (info['idx'] = position in cases)"""
     terms, infos = [], []
     for idx, case in enumerate(cases):
         term, info = one_case(ctx, case, idx)
@@ -740,12 +765,178 @@ def run_cases(ctx, cases):
         if c is None:
             continue
         judge(ctx, info, c)
+    return list(zip(infos, codes))
+
+
+# ----------------------------------------------------------------------------------------
+# the rejections the property demands, one per (class, binary operator, kind of incompatible operand), per
+# kind of impossible selection and per bool scalar: deterministic structure, contents from the seed
+# ----------------------------------------------------------------------------------------
+def g_like(rng, x, nb2, P2):
+    """a container of the class / auto / members of x with nb2 bins (a prefix / extension of x's edges) and P2 patches"""
+    nb, _, auto, b = dims(x)
+    e = list(b["edges"])
+    while len(e) < nb2 + 1:
+        e.append(e[-1] + 0.5)
+    return g_container(rng, x["t"], nb2, P2, auto, dict(t="bin", edges=e[:nb2 + 1], closed=b["closed"]), members=x.get("members"))
+
+
+def rebinned(x, how, i):
+    """x itself (same counts, weights, samples) on another binning: edge i moved / the other closed side"""
+    y = copy.deepcopy(x)
+    done = set()        # a binning shared by the members of a container is one object: moved once
+
+    def walk(d):
+        if isinstance(d, dict):
+            if d.get("t") == "bin":
+                if id(d) in done:
+                    return
+                done.add(id(d))
+                if how == "closed":
+                    d["closed"] = "left" if d["closed"] == "right" else "right"
+                else:
+                    d["edges"][i] = d["edges"][i] + 1.0 / 32
+            else:
+                for v in d.values():
+                    walk(v)
+    walk(y)
+    return y
+
+
+def mk_reject_grid(rng):
+    out = []
+    for t in ("pc", "sw", "nc", "cf", "sd"):
+        for opk in [k for k in ("add", "sum", "sub", "iadd", "isub", "accum") if k in OPS[t]]:
+            nb, P = rng.choice([2, 3, 4]), rng.choice([2, 3, 4])
+            x = g_container(rng, t, nb=nb, P=P, members=rng.choice([("dr", "rd"), ("dr", "rr"), ("rd", "rr")]) if t == "cf" else None)
+            add = lambda kind, a, o: out.append(dict(x=a, op=dict(op=opk, other_kind=kind), other=o))  # noqa: E731
+            for kind in dict.fromkeys(other_kinds(x)):
+                if kind not in ("same", "values"):
+                    add(kind, x, g_other(rng, x, kind))
+            # the same contents on another binning (nothing but the binning tells the operands apart)
+            add("edges", x, rebinned(x, "edges", rng.randrange(nb + 1)))
+            add("closed", x, rebinned(x, "closed", 0))
+            # shapes numpy would broadcast: one patch / one sample / one bin on either side
+            add("patches", x, g_like(rng, x, nb, 1))
+            add("patches", g_like(rng, x, nb, 1), x)
+            add("nbins", x, g_like(rng, x, 1, P))
+            add("nbins", g_like(rng, x, 1, P), x)
+    for t in ("pc", "sw", "nc", "cf", "sd"):
+        nb, P = rng.choice([2, 3, 4]), rng.choice([2, 3, 4])
+        x = g_container(rng, t, nb=nb, P=P)
+        for axis, n in (("bins", nb), ("patches", P)):
+            if axis == "patches" and t == "sd":
+                continue
+            k = rng.randrange(n + 1)
+            for sel in (("int", n), ("int", -n - 1), ("slice", k, k, None), ("slice", n, None, None), ("slice", None, -n, None),
+                        ("list", [n]), ("list", [0, -n - 1]), ("list", [])):
+                out.append(dict(x=x, op=dict(op=axis, sel=sel), other=None))
+    for t in ("pc", "sw", "nc", "cf", "sd"):
+        if "mulbool" in OPS[t]:
+            x = g_container(rng, t, nb=rng.choice([2, 3]), P=rng.choice([2, 3]))
+            for k in (True, False):
+                for kt in ("bool", "np.bool_"):
+                    out.append(dict(x=x, op=dict(op="mulbool", k=k, ktype=kt), other=None))
+    return out
+
+
+# ----------------------------------------------------------------------------------------
+# the interpreter's optimisation mode: python -O / PYTHONOPTIMIZE=1 compile assert statements (and whatever is
+# called inside them) away and set __debug__ to False.  The property does not depend on how the interpreter was
+# started: the same calls run in such an interpreter, and every outcome that is not the outcome observed in the
+# checking process is judged by the same Coq case.
+# ----------------------------------------------------------------------------------------
+OPT_SCRIPT = r"""
+import json, os, sys, traceback
+spec = json.loads(sys.stdin.read())
+from props import c17
+import yaw
+root = os.path.realpath(os.environ["VERIF_REPO_SRC"]) + "/"
+out = dict(debug=__debug__, optimize=sys.flags.optimize, tree_ok=os.path.realpath(yaw.__file__).startswith(root), evals=[])
+for case in spec["cases"]:
+    try:
+        out["evals"].append(c17.evaluate(case))
+    except Exception:
+        out["evals"].append(dict(harness_error=traceback.format_exc()[-1500:]))
+print(json.dumps(out))
+"""
+
+OPT_MODES = (("-O", ("-O",), {}), ("PYTHONOPTIMIZE=1", (), {"PYTHONOPTIMIZE": "1"}))
+
+
+def outcome_key(ev):
+    r = ev.get("raised")
+    return (ev.get("kind"), ev.get("term"), tuple(ev.get("mutated") or ()),
+            None if r is None else (r["type"], r["sig"], r["rejecting"]))
+
+
+def outcome_text(ev):
+    r = ev.get("raised")
+    return "returned a %s" % ev.get("restype") if r is None else "raised %s at %s" % (r["type"], r["site"])
+
+
+def optimised_probe(ctx, cases, results, modes=None):
+    """cases: case descriptions; results: (info, code) of the same cases in the checking process (run_cases)"""
+    import os
+    from lib import optmode
+    normal = {info["idx"]: (info, c) for info, c in results}
+    picked = sorted(normal)
+    harness = os.path.dirname(os.path.dirname(os.path.abspath(__file__)))
+    env = {"PYTHONPATH": os.environ["VERIF_REPO_SRC"] + os.pathsep + harness, "PYTHONDONTWRITEBYTECODE": "1"}
+    for label, flags, extra in OPT_MODES:
+        if modes is not None and label not in modes:
+            continue
+        evs, why = [], ""
+        for k in range(0, len(picked), 1500):
+            part = picked[k:k + 1500]
+            r = optmode.run(OPT_SCRIPT, dict(cases=[cases[i] for i in part]), flags=flags, env_extra=dict(env, **extra), timeout=900)
+            res = r.get("result")
+            if not (res is not None and res.get("debug") is False and res.get("optimize", 0) >= 1 and res.get("tree_ok")
+                    and len(res.get("evals", [])) == len(part)):
+                evs, why = None, "rc=%s result=%s %s" % (r.get("rc"), str(res)[:300], r.get("stderr"))
+                break
+            evs.extend(res["evals"])
+        ctx.obligation("optimised-interpreter probe ran (%s)" % label, evs is not None, why)
+        if evs is None:
+            continue
+        terms, infos = [], []
+        for i, ev in zip(picked, evs):
+            info_n, code_n = normal[i]
+            if "harness_error" in ev:
+                ctx.obligation("harness:c17-optimised-evaluate(%s, case %d)" % (label, i), False, ev["harness_error"])
+                continue
+            rejection = info_n["raised"] is not None
+            ctx.count(key=("optimised", label, canon(cases[i])), nontrivial=True,
+                      kind="optimised-interpreter/%s/%s" % (label, "rejection" if rejection else "result"))
+            if outcome_key(ev) == outcome_key(info_n):
+                continue        # the same Coq term: the verdict of the checking process stands
+            ctx.bump("optimised-interpreter:other-outcome")
+            ev.update(idx=i, t=info_n["t"], op=info_n["op"], case=cases[i], normal=outcome_text(info_n))
+            if ev.get("term") is None:
+                ctx.disagree("Cases_C17_optimised", ("optimised", label, i),
+                             dict(note="outcome differs from the normal interpreter on a case with non-finite values",
+                                  normal=outcome_text(info_n), optimised=outcome_text(ev)))
+                continue
+            terms.append(ev["term"])
+            infos.append(ev)
+        if terms:
+            codes = ctx.shards("Cases_C17_opt%d" % [m[0] for m in OPT_MODES].index(label), HEADER, terms, shard=40)
+            for ev, c in zip(infos, codes):
+                if c is not None:
+                    judge(ctx, ev, c, mode=label)
 
 
 def run(ctx):
     cases = mk_fixed()
-    n = ctx.n(400, 6000)
+    nfixed = len(cases)
     seen = {canon(c) for c in cases}
+    for _ in range(ctx.n(1, 4)):
+        for c in mk_reject_grid(ctx.rng):
+            if canon(c) not in seen:
+                seen.add(canon(c))
+                cases.append(c)
+    ngrid = len(cases) - nfixed
+    n = ctx.n(400, 6000) + ngrid
     tries = 0
     while len(cases) < n and tries < 20 * n:
         tries += 1
@@ -755,10 +946,14 @@ def run(ctx):
             continue
         seen.add(k)
         cases.append(c)
-    ctx.log("cases: %d (fixed probes %d)" % (len(cases), len(mk_fixed())))
-    run_cases(ctx, cases)
+    ctx.log("cases: %d (fixed probes %d, rejection grid %d)" % (len(cases), nfixed, ngrid))
+    results = run_cases(ctx, cases)
+    ctx.log("checking process done; the same calls with -O / PYTHONOPTIMIZE=1")
+    optimised_probe(ctx, cases, results)
 
 
 def replay(ctx, body):
     rp = body.get("replay", body)
-    run_cases(ctx, [rp["case"]])
+    results = run_cases(ctx, [rp["case"]])
+    if rp.get("mode"):
+        optimised_probe(ctx, [rp["case"]], results, modes=[rp["mode"]])
